@@ -43,7 +43,10 @@ Definition add_header (c : iter_cfg) (entryVal : bytes) (ts flags : N) : bytes :
 Definition native_merge (c : iter_cfg) (old : bytes) (e : kv) : res bytes :=
   match old with
   | [] =>
-      if is_deleted (masked_flags e) && (k_ts e <? c_cutoff c) then Ok []
+      (* in format version 1 an empty value denotes a deletion (fix 03ae323: the stale check honours it) *)
+      let newDeleted := is_deleted (masked_flags e)
+                        || (Nat.eqb (length (k_val e)) 0 && (c_fmt c <? 2)) in
+      if newDeleted && (k_ts e <? c_cutoff c) then Ok []
       else Ok (add_header c (k_val e) (k_ts e) (masked_flags e))
   | _ :: _ =>
       match parse old with
